@@ -755,6 +755,33 @@ func runValExh(c *core.Ctx) {
 					}
 				}
 			}
+			// … or the clause only picks the fresh value and one decode call behind the switch
+			// serves all clauses: dst.UnmarshalJSON(b) on the interface the value was put into
+			{
+				seen := map[ssa.Value]bool{}
+				var follow func(v ssa.Value, depth int)
+				follow = func(v ssa.Value, depth int) {
+					if v == nil || seen[v] || depth > 4 || v.Referrers() == nil {
+						return
+					}
+					seen[v] = true
+					for _, r := range *v.Referrers() {
+						switch x := r.(type) {
+						case *ssa.MakeInterface:
+							follow(x, depth+1)
+						case *ssa.ChangeInterface:
+							follow(x, depth+1)
+						case *ssa.Phi:
+							follow(x, depth+1)
+						case *ssa.Call:
+							if x.Call.IsInvoke() && x.Call.Value == v && x.Call.Method.Name() == "UnmarshalJSON" && len(x.Call.Args) == 1 && an.PathOf(x.Call.Args[0]) == "p:"+parse.Params[0].Name() {
+								okParse = true
+							}
+						}
+					}
+				}
+				follow(a, 0)
+			}
 			// … or through a private helper that is handed the fresh value and calls its
 			// UnmarshalJSON (dynamically: the helper takes any client message) with the input
 			for _, ci := range calls(parse) {
@@ -845,6 +872,14 @@ func impliesResult(c *core.Ctx, fn *ssa.Function, v ssa.Value, val bool) (bool, 
 				if cv == v && pol != val {
 					continue nextPath // path assumes the other outcome
 				}
+				// a branch on a value computed from v (`ok := present && set[k]`; `case a != nil && !a[k]:`):
+				// under the assumption the path may be impossible
+				if cd.Idx >= 0 && cd.Idx < len(p) {
+					ct, cf := fr.BoolMeaning(cd.V, p[:cd.Idx+1], an.Full(), 0)
+					if (cd.True && ct.IsEmpty()) || (!cd.True && cf.IsEmpty()) {
+						continue nextPath
+					}
+				}
 			}
 			seen++
 			rv := ret.Results[0]
@@ -882,12 +917,20 @@ func forAllLoopAt(elem ssa.Value, at *ssa.BasicBlock) (bool, string) {
 	if h == nil {
 		return false, "element read outside a loop"
 	}
-	iff, ok := an.LastInstr(h).(*ssa.If)
-	if !ok {
-		return false, "loop header has no exit test"
+	// the bound test i < len(X): at the loop header, or — with a compound loop condition
+	// (`for i := 0; ok && i < len(X); i++`) — in a later block of the loop that still stands in
+	// front of the element access
+	var cond *ssa.BinOp
+	for b := range an.LoopBlocks(h) {
+		iff, isIf := an.LastInstr(b).(*ssa.If)
+		if !isIf || !(b == ia.Block() || b.Dominates(ia.Block())) {
+			continue
+		}
+		if bc, isBin := iff.Cond.(*ssa.BinOp); isBin && bc.Op == token.LSS && an.PathOf(bc.Y) == "len("+an.PathOf(ia.X)+")" && bc.X == ia.Index {
+			cond = bc
+		}
 	}
-	cond, ok := iff.Cond.(*ssa.BinOp)
-	if !ok || cond.Op != token.LSS || an.PathOf(cond.Y) != "len("+an.PathOf(ia.X)+")" {
+	if cond == nil {
 		return false, "loop is not bounded by the length of the validated slice"
 	}
 	var ph *ssa.Phi
